@@ -1395,6 +1395,11 @@ class UWG(object):
 
         epw_prec = self.epw_precision  # precision of epw file input
 
+        if os.path.realpath(self.new_epw_path) == os.path.realpath(self.epw_path):
+            raise Exception('The new epw file path "{}" is the rural epw file itself. '
+                            'Choose another new_epw_dir or new_epw_name.'.format(
+                                self.new_epw_path))
+
         for iJ in range(len(self.UCMData)):
             # [iJ+self.simTime.timeInitial-8] - increments along weather timestep in epw
             # [6 to 21]                       - column data of epw
